@@ -795,6 +795,16 @@ func (x *Exec) closureVars(st *State, fn *ssa.Function, bindings []Val) ([]strin
 	return names, vals
 }
 
+func (x *Exec) chanKeyDepth(v ssa.Value, depth int) string {
+	if depth <= 0 {
+		return ""
+	}
+	if _, isPhi := v.(*ssa.Phi); isPhi {
+		return "" // nested phis: give up
+	}
+	return x.chanKey(v)
+}
+
 // chanKey names a channel by the struct field it was read from ("channel.inMsgChan").
 func (x *Exec) chanKey(v ssa.Value) string {
 	switch v := v.(type) {
@@ -805,6 +815,33 @@ func (x *Exec) chanKey(v ssa.Value) string {
 		}
 	case *ssa.ChangeType:
 		return x.chanKey(v.X)
+	case *ssa.Phi:
+		// the same kind of channel on every incoming edge
+		key := ""
+		for i, e := range v.Edges {
+			if _, self := e.(*ssa.Phi); self && e == ssa.Value(v) {
+				continue
+			}
+			k := x.chanKeyDepth(e, 3)
+			if k == "" || (i > 0 && key != "" && k != key) {
+				return ""
+			}
+			key = k
+		}
+		return key
+	case *ssa.Extract:
+		// value of a comma-ok map lookup
+		if lk, ok := v.Tuple.(*ssa.Lookup); ok && v.Index == 0 {
+			return x.chanKey(lk)
+		}
+	case *ssa.Lookup:
+		// a channel stored in a map held in a struct field: "Type.field.elem"
+		if u, ok := v.X.(*ssa.UnOp); ok && u.Op == token.MUL {
+			if fa, ok := u.X.(*ssa.FieldAddr); ok {
+				st := fa.X.Type().Underlying().(*types.Pointer).Elem()
+				return typeRelName(x.prog, st) + "." + st.Underlying().(*types.Struct).Field(fa.Field).Name() + ".elem"
+			}
+		}
 	case *ssa.Call:
 		// accessor methods such as c.MsgChan(): declared with `returns-chan`
 		if f := v.Call.StaticCallee(); f != nil {
